@@ -261,11 +261,14 @@ func (ro *RedisOutput) SetRunId(ctx context.Context, id string) error {
 		defer cli.Close()
 		err = checkpoint.UpdateCheckpoint(cli, ro.cfg.CheckpointName, []string{id, ro.cfg.RunId})
 		if err != nil {
+			// the position is still labelled with the old id: keep it, so that the retry (and the
+			// next SetRunId of this process) relabels from it instead of starting from nothing
 			ro.logger.Errorf("update checkpoint error : cp(%s), runId(%s,%s), err(%v)", ro.cfg.CheckpointName, id, ro.cfg.RunId, err)
+			return err
 		}
 		ro.logger.Infof("UpdateCheckpoint : cp(%s), runId(%s,%s)", ro.cfg.CheckpointName, id, ro.cfg.RunId)
 		ro.cfg.RunId = id
-		return err
+		return nil
 	}, 3, time.Second*4, 0.3)
 }
 
